@@ -1,5 +1,6 @@
 import Driver.Util
 import DoviModel.Proofs.Rpu
+import DoviModel.Proofs.PwMapping
 namespace Driver
 open Dovi
 
@@ -24,8 +25,11 @@ def wfWhy (r : Rpu) : String :=
      | none => "dm-presence")
   else "remaining"
 
-/-- `wf=<0|1> why=<conjunct> write=<ok|err|panic> reparse=<same|diff|fail|->` -/
+/-- `sesmall=<0|1> wf=<0|1> why=<conjunct> write=<ok|err|panic> reparse=<same|diff|fail|->` -/
 def wfLine (r : Rpu) : String :=
+  let se := match r.rpu_data_mapping with | some m => m.seSmall | none => true
+  (if se then "sesmall=1 " else "sesmall=0 ") ++ wfLine' r
+where wfLine' (r : Rpu) : String :=
   let wf := RpuWfB r
   let why := if wf then "-" else wfWhy r
   match writeRpu r with
